@@ -59,6 +59,24 @@ fn sizes<'a>(
                         Ok(st) => {
                             o.d.dbg(&(st.index_format(), st.image_format(), st.image_data_offset()));
                             walk_table(o, &st as &dyn SomeTable, 4);
+                            // sparse index formats: query every glyph id the table itself
+                            // names (format 4 incl. its trailing sentinel pair), and their neighbours
+                            use read_fonts::tables::bitmap::IndexSubtable;
+                            match &st {
+                                IndexSubtable::Format4(t) => {
+                                    for p in t.glyph_array().iter().take(48).chain(t.glyph_array().iter().rev().take(8)) {
+                                        let g = p.glyph_id().to_u32();
+                                        gids.extend([g.wrapping_sub(1), g, g + 1]);
+                                    }
+                                }
+                                IndexSubtable::Format5(t) => {
+                                    for p in t.glyph_array().iter().take(48).chain(t.glyph_array().iter().rev().take(8)) {
+                                        let g = p.get().to_u32();
+                                        gids.extend([g.wrapping_sub(1), g, g + 1]);
+                                    }
+                                }
+                                _ => {}
+                            }
                         }
                         Err(e) => o.err(&e),
                     }
